@@ -60,21 +60,26 @@ fn filename(path: &Path) -> Result<OsString> {
 
 fn has_backup(file: &Path) -> Result<bool> {
     let fname = filename(file)?;
-    let exists = ls_file_dir(file)?
-        .any(|der| if let Ok(de) = der {
-            is_num_backup(&fname, &de.path()).is_some()
-        } else {
-            false
-        });
-    Ok(exists)
+    // An entry we fail to read may be a backup: report the error
+    // rather than deciding on an incomplete listing.
+    for der in ls_file_dir(file)? {
+        if is_num_backup(&fname, &der?.path()).is_some() {
+            return Ok(true);
+        }
+    }
+    Ok(false)
 }
 
 fn next_backup_num(file: &Path) -> Result<u64> {
     let fname = filename(file)?;
-    let current = ls_file_dir(file)?
-        .filter_map(|der| is_num_backup(&fname, &der.ok()?.path()))
-        .max()
-        .unwrap_or(0);
+    // As above: with an incomplete listing the number chosen could
+    // be that of an existing backup, which the rename would replace.
+    let mut current = 0;
+    for der in ls_file_dir(file)? {
+        if let Some(num) = is_num_backup(&fname, &der?.path()) {
+            current = current.max(num);
+        }
+    }
     current.checked_add(1)
         .ok_or(XcpError::InvalidArguments(format!("Backup number overflow for {:?}", file)).into())
 }
